@@ -128,7 +128,7 @@ func (g *DocGen) Mutate(r *rand.Rand, w W) W {
 		case map[string]any:
 			if c, ok := v["m"].(map[string]any); ok {
 				conts = append(conts, c)
-				for k := range c {
+				for _, k := range sortedKeys(c) {
 					k := k
 					walk(c[k], func(n W) { c[k] = n })
 				}
